@@ -48,6 +48,7 @@ inline bool sf_expected(const sf_obs &ob, int kind, uint64_t id) {
 }
 
 // construction paths; the promise is handed out through 'out'
+inline int g_sf_ready_without_promise = 0; // an initialised state for which no promise exists yet reported ready()
 inline sfut sf_make(int path, cocls::promise<tracked> &out, int resolve_now_kind = -1, uint64_t id = 0) {
     if (resolve_now_kind >= 0) { // resolved inside the construction function: the state is ready before it is ever shared
         if (path == 0) return sfut([&](cocls::promise<tracked> p) { sf_resolve(p, resolve_now_kind, id); });
@@ -58,7 +59,7 @@ inline sfut sf_make(int path, cocls::promise<tracked> &out, int resolve_now_kind
     case 0: return sfut([&](cocls::promise<tracked> p) { out = std::move(p); });
     case 1: return sfut([&]() -> cocls::future<tracked> { return cocls::future<tracked>([&](cocls::promise<tracked> p) { out = std::move(p); }); });
     case 2: { sfut f; out = f.get_promise(); return f; } // default constructed, initialised later
-    default: { sfut f; f.init_if_needed(); sfut c = f; out = c.get_promise(); return f; } // initialised explicitly, promise taken through a copy
+    default: { sfut f; f.init_if_needed(); sfut c = f; if (f.ready() || c.ready()) g_sf_ready_without_promise++; out = c.get_promise(); return f; } // initialised explicitly, promise taken through a copy
     }
 }
 
@@ -119,6 +120,7 @@ inline void shared_future_history(const vf::opts &o, vf::report &R, uint64_t his
             handles.clear();
         }
         R.cases++;
+        if (err.empty() && g_sf_ready_without_promise) { err = "an initialised shared_future for which no promise exists yet reported ready()"; g_sf_ready_without_promise = 0; }
         if (err.empty() && tracked::live.load() != live0) err = "stored value not destroyed exactly once (live delta " + std::to_string(tracked::live.load() - live0) + ") after all handles are gone and the promise is resolved";
         if (err.empty() && tracked::bad.load() != bad0) err = "stored value destroyed twice or read after destruction";
         if (!err.empty()) { R.violation("monitor:shared_state|shared_future_history", err, vf::jobj().kv("history", (unsigned long long)hn).kv("ops", trace).kv("disagreement", err).str()); continue; }
